@@ -371,6 +371,14 @@ func (ca *CertificateAuthority) upload(ctx context.Context, manifest *cpb.GCECer
 	if err != nil {
 		return nil, err
 	}
+	if exists && !output.AllowOverwrite(ctx) {
+		// --keep_going made writeIfAllowed leave the existing object as it is. Whatever that object
+		// holds, it is not cert, and the manifest entry depends directly on the write that was
+		// skipped: this is not an error to keep going after.
+		return nil, status.Errorf(codes.AlreadyExists,
+			"object %q exists, overwrite not enabled: not recording it as the certificate of key version %q",
+			name, keyVersionName)
+	}
 	// The key is fresh, so add it to the manifest.
 	if entry == nil {
 		entries := append(manifest.Entries, &cpb.GCECertificateManifest_Entry{
